@@ -760,7 +760,12 @@ static void enumerate_c07(void)
 		static const char *odd[] = { "{\"keys\":[],\"keys\":[{}]}", " \n\t{\"kty\":\"oct\",\"k\":\"AAAA\"}\n ", "{\"kty\":\"oct\",\"k\":\"AAAA\"} trailing", "{\"kty\":\"oct\",\"k\":\"AAAA\"}{}",
 					     "\xef\xbb\xbf{}", "{\"kty\":\"oct\",\"k\":\"AA\\u0000AA\"}", "{\"kty\":\"o\\u0063t\",\"k\":\"AAAA\"}", "{\"KTY\":\"oct\",\"k\":\"AAAA\"}",
 					     "{\"kty\":\"OCT\",\"k\":\"AAAA\"}", "{\"kty\":\"oct\",\"k\":\"AAAA\",\"kid\":\"\\ud83d\\ude00\"}", "[{\"kty\":\"oct\",\"k\":\"AAAA\"}]",
-					     "{\"keys\":{\"0\":{\"kty\":\"oct\",\"k\":\"AAAA\"}}}", "{\"keys\":[[{\"kty\":\"oct\",\"k\":\"AAAA\"}]]}", "9999999999999999999999", "-", "nul", "\"unterminated" };
+					     "{\"keys\":{\"0\":{\"kty\":\"oct\",\"k\":\"AAAA\"}}}", "{\"keys\":[[{\"kty\":\"oct\",\"k\":\"AAAA\"}]]}", "9999999999999999999999", "-", "nul", "\"unterminated",
+					     /* elements of the keys array that have a member called keys themselves: one element, one item */
+					     "{\"keys\":[{\"kty\":\"oct\",\"k\":\"AAAA\",\"keys\":[]},{\"kty\":\"oct\",\"k\":\"AAAA\",\"kid\":\"second\"}]}",
+					     "{\"keys\":[{\"keys\":[{\"kty\":\"oct\",\"k\":\"AAAA\"},{\"kty\":\"oct\",\"k\":\"AAAA\"}]}]}",
+					     "{\"keys\":[{\"kty\":\"oct\",\"k\":\"AAAA\",\"keys\":[{\"kty\":\"oct\",\"k\":\"BBBB\"}]}]}",
+					     "{\"kty\":\"oct\",\"k\":\"AAAA\",\"keys\":null}", "{\"keys\":null}", "{\"keys\":5,\"kty\":\"oct\",\"k\":\"AAAA\"}" };
 		for (unsigned i = 0; i < sizeof odd / sizeof *odd; i++)
 			if (vf_case("odd document %s", vf_esc(odd[i])))
 				c07_case_doc(odd[i], strlen(odd[i]), EP_ALL, 1);
